@@ -168,6 +168,90 @@ def is_dist(x):
     return isinstance(x, dict)
 
 
+# --------------------------------------------------------------------------- histories on ONE object (shared with C23)
+HIST_ENERGIES = [40e3, 60e3, 80e3, 100e3, 200e3, 300e3]
+
+
+def rand_history(rng, extra_ops=()):
+    """Start state + 2-5 steps, each changing exactly one thing of one live object.
+
+    mode 'explicit': object built with energy and a grid (given as gpts+sampling, gpts+extent or extent+sampling); steps set
+                     energy / gpts / sampling / extent through the public attributes (or one of `extra_ops`).
+    mode 'match'   : object built without energy and grid; every step evaluates it for waves (delta wave functions) that
+                     differ from the previous waves in exactly one of energy / gpts / sampling; the object is matched to them
+                     implicitly (`_evaluate_kernel(waves)` or `waves.apply_transform(obj)`).
+    """
+    g = [int(rng.integers(4, 22)), int(rng.integers(4, 22))]
+    s = [float(rng.uniform(0.06, 0.3)), float(rng.uniform(0.06, 0.3))]
+    energy = float(rng.choice(HIST_ENERGIES))
+    mode = "explicit" if rng.random() < 0.6 else "match"
+    hist = {"mode": mode, "energy": energy, "gpts": list(g), "sampling": list(s),
+            "form": str(rng.choice(["gpts-sampling", "gpts-extent", "extent-sampling"])), "steps": []}
+    ops = ["energy", "energy", "gpts", "sampling"] + (["extent"] if mode == "explicit" else []) + list(extra_ops)
+    for i in range(int(rng.integers(2, 6))):
+        op = "energy" if (i == 0 and rng.random() < 0.6) else str(rng.choice(ops))
+        step = {"op": op}
+        if op == "energy":
+            energy = float(rng.choice([e for e in HIST_ENERGIES if e != energy]))
+            step["value"] = energy
+        elif op == "gpts":
+            g = [max(2, g[0] + int(rng.integers(-3, 4))), max(2, g[1] + int(rng.integers(-3, 4)))]
+            step["value"] = list(g)
+        elif op == "sampling":
+            s = [s[0] * float(rng.uniform(0.8, 1.25)), s[1] * float(rng.uniform(0.8, 1.25))]
+            step["value"] = list(s)
+        elif op == "extent":
+            f = [float(rng.uniform(0.8, 1.25)), float(rng.uniform(0.8, 1.25))]
+            step["value"] = [g[0] * s[0] * f[0], g[1] * s[1] * f[1]]
+            s = [s[0] * f[0], s[1] * f[1]]
+        if mode == "match":
+            step.update(energy=energy, gpts=list(g), sampling=list(s), via=str(rng.choice(["kernel", "transform"])))
+        hist["steps"].append(step)
+    return hist
+
+
+def history_amax(hist):
+    """Generous bound of the largest scattering angle any state of the history can reach."""
+    lam = max(wl_ref(e) for e in HIST_ENERGIES)
+    smin = [min([hist["sampling"][i]] + [st["sampling"][i] for st in hist["steps"] if "sampling" in st]
+                + [st["value"][i] for st in hist["steps"] if st["op"] == "sampling"]) for i in (0, 1)]
+    return 1.6 * lam * math.hypot(0.5 / smin[0], 0.5 / smin[1])
+
+
+def history_grid_kwargs(hist):
+    g, s = hist["gpts"], hist["sampling"]
+    ext = (g[0] * s[0], g[1] * s[1])
+    if hist["form"] == "gpts-sampling":
+        return dict(gpts=tuple(g), sampling=tuple(s))
+    if hist["form"] == "gpts-extent":
+        return dict(gpts=tuple(g), extent=ext)
+    return dict(extent=ext, sampling=tuple(s))
+
+
+def delta_waves(energy, gpts, sampling, f32):
+    import abtem
+    arr = np.zeros(tuple(gpts), dtype=np.complex64 if f32 else np.complex128)
+    arr[0, 0] = 1.0
+    return abtem.Waves(arr, energy=energy, sampling=tuple(sampling))
+
+
+def history_step(obj, step, f32):
+    """Apply a grid/energy/match step to the live object; returns the kernel (DFT of the output for 'transform')."""
+    op = step["op"]
+    if "via" in step:                                    # match mode: every step evaluates for its waves
+        waves = delta_waves(step["energy"], step["gpts"], step["sampling"], f32)
+        if step["via"] == "kernel":
+            return np.asarray(obj._evaluate_kernel(waves))
+        out = waves.apply_transform(obj).array
+        out = out.compute() if hasattr(out, "compute") else out
+        return np.fft.fft2(np.asarray(out).astype(np.complex128))
+    if op == "energy":
+        obj.energy = step["value"]
+    elif op in ("gpts", "sampling", "extent"):
+        setattr(obj, op, tuple(step["value"]))
+    return None
+
+
 # --------------------------------------------------------------------------- generator
 def _rand_grid(rng):
     k = rng.random()
@@ -235,6 +319,23 @@ def gen(rng, tier):
                     names=_names(rng, coeffs, 0.3), how=str(rng.choice(["kwargs", "dict", "set_aberrations"])))
         return case
     if k < 0.22:
+        # history on ONE object: evaluate, change exactly one thing, evaluate again
+        hist = rand_history(rng, extra_ops=("coeff", "coeff"))
+        lam_h = max(wl_ref(e) for e in HIST_ENERGIES)
+        symbols = [str(x) for x in rng.choice(SYMBOLS, size=int(rng.integers(2, 9)), replace=False)]
+        for x in list(symbols):
+            if x in ANGLES and ("C" + x[3:]) not in symbols:
+                symbols.append("C" + x[3:])
+        coeffs = _rand_coeffs(rng, symbols, history_amax(hist), lam_h)
+        for st in hist["steps"]:
+            if st["op"] == "coeff":
+                sym = str(rng.choice(SYMBOLS))
+                st.update(symbol=sym, value=_rand_coeffs(rng, [sym], history_amax(hist), lam_h)[sym],
+                          name=ALIAS_OF[sym] if rng.random() < 0.4 else sym,
+                          how=str(rng.choice(["attr", "set_aberrations"])))
+        case.update(kind="history", hist=hist, coeffs=coeffs, names={})
+        return case
+    if k < 0.36:
         # one or two coefficients (magnitudes or angles) are distributions: uniform, Gaussian-weighted or user-weighted
         syms = [str(x) for x in rng.choice(SYMBOLS, size=int(rng.choice([1, 1, 2])), replace=False)]
         others = [x for x in SYMBOLS if x not in syms and rng.random() < 0.2]
